@@ -1,4 +1,4 @@
 SPECIFICATION Spec
-CONSTANTS MaxR = 2  MaxC = 3  MaxEnt = 3  Depth = 2  Emit = TRUE
+CONSTANTS MaxR = 2  MaxC = 3  MaxEnt = 3  Depth = 2  Emit = TRUE  WithZero = FALSE
 INVARIANTS EmitCase
 CHECK_DEADLOCK FALSE
